@@ -47,3 +47,20 @@ Theorem C02_append_only :
     o <> ORestore -> extends _ _ _ (live _ _ _ s) (live _ _ _ s').
 Proof. exact step_append_only. Qed.
 Print Assumptions C02_append_only.
+
+(* calibrate() returns precisely the recorded (parameter, loss) pairs, ordered by increasing loss. *)
+From BlackIt Require Import Proofs.CalibSortP.
+From Coq Require Import Permutation.
+Theorem C02_returned_is_sorted_history :
+  forall Param Series LossV model lossf loss_leb rounds0 propose draws agent_actions plan n s s' r,
+    calibrate Param Series LossV model lossf loss_leb rounds0 propose draws agent_actions plan n s = (s', None, r) ->
+    r = sort_pairs Param LossV loss_leb (combine (params _ _ _ (live _ _ _ s')) (losses _ _ _ (live _ _ _ s'))).
+Proof. exact calibrate_returns_sorted_history. Qed.
+Print Assumptions C02_returned_is_sorted_history.
+
+Theorem C02_sort_pairs_spec :
+  forall Param LossV (loss_leb : LossV -> LossV -> bool),
+    (forall a b, loss_leb a b = true \/ loss_leb b a = true) ->
+    forall l, Permutation (sort_pairs Param LossV loss_leb l) l /\ Sorted (le_pair Param LossV loss_leb) (sort_pairs Param LossV loss_leb l).
+Proof. exact sort_pairs_spec. Qed.
+Print Assumptions C02_sort_pairs_spec.
